@@ -59,12 +59,13 @@ func TestReplayOne(t *testing.T) {
 	case "tg-path":
 		var r struct {
 			Target string   `json:"target"`
+			Ctx    []string `json:"ctxThreads"`
 			Path   []tgStep `json:"path"`
 		}
 		if err := json.Unmarshal(mm.Replay, &r); err != nil {
 			t.Fatal(err)
 		}
-		sig, desc, at := runTGPath(r.Target, r.Path, res)
+		sig, desc, at := runTGPath(r.Target, r.Path, res, r.Ctx)
 		if sig != "" {
 			res.Mismatch(sig, fmt.Sprintf("step %d: %s", at, desc), r)
 		}
